@@ -65,6 +65,8 @@ def generate(rng, tier):
             s = rng.choice(BS) if r < 0.3 else rng.randint(0, 0x7FFF) if r < 0.65 else rng.randint(0x8000, 0x7FFFFF)
             hdrs.append((s, rng.choice(BO) if rng.random() < 0.3 else rng.getrandbits(16)))
         cs += seq_cases(rng, rbytes(rng, 40), hdrs, "mixed-sequence")
+    import hdr_mix
+    cs += hdr_mix.cases(rng, Case, [("w", "s"), ("w", "c")], 80 if tier == "quick" else 3000, 160, special_key=special_key)
     K = rbytes(rng, 40)
     def sweep(lo, hi, opc):
         return Case("w.sweep %s %d %d %d" % (K.hex(), lo, hi, opc), "sweep",
